@@ -62,20 +62,63 @@ def judge(case):
     nt = bool(info.get("accepted") and info.get("nonzero") and any(a.size > 1 for a in arrays))
     return {"nontrivial": nt, "outcome": "accepted" if info.get("accepted") else "rejected", "violations": viol}
 
+def boundary_cases():
+    """operands ON the boundary of the domain (exact zeros under sqrt, fractional / negative powers, zero denominators): the
+    derivative is infinite or undefined there and finite differences say nothing, but the library's answer must still be THE
+    limit value (inf / -inf / nan as torch autograd gives it) - not an arbitrary finite number"""
+    out = []
+    for s in ((), (3,), (2, 3)):
+        for pat in ("nonneg0", "with_zeros", "zeros"):
+            out.append({"op": "sqrt", "shapes": [list(s)], "args": {}, "pats": [pat], "boundary": True})
+            for n in (0.5, 1.5, -1, -0.5, -2, 2, 3):
+                out.append({"op": "pow", "shapes": [list(s)], "args": {"n": n}, "pats": [pat], "boundary": True})
+            out.append({"op": "rdiv", "shapes": [list(s)], "args": {"c": 2.5}, "pats": [pat], "boundary": True})
+            out.append({"op": "div", "shapes": [list(s), list(s)], "args": {}, "pats": ["generic", pat], "boundary": True})
+            out.append({"op": "exp", "shapes": [list(s)], "args": {}, "pats": [pat], "boundary": True})
+    return out
+
+def judge_boundary(case):
+    sg = harness.load(); t = harness.torch()
+    arrays = cat.arrays_for(case)
+    viol = []
+    for gname in ("ones", "dense"):
+        try:
+            out, ts = cat.run_lib(case, arrays, [True] * len(arrays))
+            from mc import values as _v
+            g = np.ones(out.shape) if gname == "ones" else np.asarray(_v.dense_g(out.shape))
+            out.backward(sg.Tensor(np.asarray(g, dtype=out.dtype)))
+            lg = [np.asarray(x.grad.data, dtype=np.float64) for x in ts]
+        except harness.HarnessError:
+            raise
+        except Exception as e:
+            return {"nontrivial": False, "outcome": "rejected", "violations": []}
+        tt = [t.tensor(a, dtype=t.float64, requires_grad=True) for a in arrays]
+        o = cat.OPS[case["op"]].ref(t, tt, case.get("args") or {})
+        o.backward(t.from_numpy(np.asarray(g, dtype=np.float64)).reshape(o.shape))
+        for k, (a, b) in enumerate(zip(lg, [x.grad.numpy() for x in tt])):
+            if a.shape != b.shape or not np.allclose(a, b, rtol=1e-9, atol=1e-12, equal_nan=True):
+                viol.append({"kind": f"{case['op']}:boundary-gradient", "detail": f"operand {k} = {np.asarray(arrays[k]).ravel()[:4]}..., upstream {gname}: library gradient "
+                             f"{a.ravel()[:4]}, limit value (torch autograd) {b.ravel()[:4]}"})
+                return {"nontrivial": True, "outcome": "boundary", "violations": viol}
+    return {"nontrivial": True, "outcome": "boundary", "violations": viol}
+
+def dispatch(case):
+    return judge_boundary(case) if case.get("boundary") else judge(case)
+
 def replay(case):
     with harness.quiet():
-        return judge(case)["violations"]
+        return dispatch(case)["violations"]
 
 def run(tier, seed):
-    cases = [c for c in cat.cases(tier, "grad")]
-    r = engine.run_cases(cases, judge)
+    cases = [c for c in cat.cases(tier, "grad")] + boundary_cases()
+    r = engine.run_cases(cases, dispatch)
     cov = {"evaluations": r["evaluations"], "distinct_nontrivial": r["distinct_nontrivial"],
            "rule": "every accepted case of the tensor-op lattice (broadcast pairs, matmul batch patterns, addmm, pow/rpow "
                    "exponents, index expressions incl. steps/ellipsis/newaxis/repeated indices, concat/stack/unbind, "
                    "reductions over every signed dim tuple x keepdims, squeeze/unsqueeze/reshape/movedim/transpose/flatten/"
                    "unfold over every argument); per case: backward for EVERY basis vector of the output vs 4th-order FD "
                    "Jacobian of the library's float64 forward (tol 1e-7), all-ones and dense g (linearity), every non-empty "
-                   "requires_grad subset; the same Tensor object in two operand slots of one operation (same-shaped slots); ties by one-sided bracket test; non-trivial = accepted, Jacobian has a non-zero "
+                   "requires_grad subset; the same Tensor object in two operand slots of one operation (same-shaped slots); ties by one-sided bracket test; on the boundary of the domain (exact zeros under sqrt / fractional and negative powers / as denominators) the gradient is the limit value torch autograd gives (inf, -inf, nan), bitwise kind; non-trivial = accepted, Jacobian has a non-zero "
                    "entry, some operand has >1 element",
            "samples": r["samples"], "exhaustive": True, "outcomes": r["outcomes"]}
     return {"level": "exploration", "violations": r["violations"], "coverage": cov,
